@@ -64,7 +64,9 @@ def plain(x, model=None):
         return {str(k): plain(v, model) for k, v in x.items()}
     if isinstance(x, bool) or x is None or isinstance(x, (int, str, float)):
         return x
-    return repr(x)
+    if hasattr(x, 'to_bytes') and hasattr(x, 'sigil'):
+        return [type(x).__name__, plain(x.to_bytes(), model)]
+    return '<%s>' % type(x).__name__
 
 
 def jsonable(x):
